@@ -68,6 +68,10 @@ T["C16"] = ("tensor write-sanitizer (identity + autograd version counter + byte 
             "Every public computation (payoffs, every feature for one step and all steps, listed prices, BS modules, autogreek, criteria, hedger methods, every public function of "
             "pfhedge.nn.functional) runs under a sanitizer that re-checks every buffer of every live primary and every tensor argument at its exit; random interleavings of simulate / "
             "compute_* / price / fit / to() over several derivatives on one hedger are compared bit for bit with a fresh hedger holding copied parameters.", "4 C16")
+T["C06"] = ("certainty-equivalence contract on every HedgeLoss.cash (subclass tree) + tap-based contract on Hedger.price",
+            "Every cash() call (closed forms and the default search, incl. user subclasses) is judged: loss(constant sample at cash) = loss(sample) within search precision x local "
+            "slope, min <= cash <= max, cash <= mean for risk-averse criteria, quadratic CVaR cash = -risk; Hedger.price is judged against -cash(portfolio, payoff) recomputed from the "
+            "tensors tapped inside the call (n_times simulations), payoff-shift equivariance and entropic price = loss under a re-seeded RNG. Two known findings (default search).", "4 C06")
 NA = {}
 
 def main():
